@@ -1,10 +1,199 @@
-(* Proofs about Model/SerDes.v (properties C21, C06). *)
+(* Proofs about Model/SerDes.v, part 4: missing/unused values, context types, no overwriting (C21). *)
 From Coq Require Import ZArith List Bool Lia.
-From VC2 Require Import Model.SerDes.
+From VC2 Require Import Model.SerDes Proofs.SerDesBits Proofs.SerDesWf Proofs.SerDesSim.
 Import ListNotations.
 Open Scope Z_scope.
 
-(* a second write to a plain (non-list) target is refused *)
+(* ====================================================================== *)
+(* ---- missing values ---- *)
+Lemma missing_key_fails D k t s :
+  alookup t (c_ix s) = None -> alookup t (c_f s) = None -> dlookup D (c_ty s) t = None ->
+  ser_prim D k t s = Err EKey.
+Proof. intros E F Dl. unfold ser_prim, ser_get. rewrite E, F, Dl. reflexivity. Qed.
+
+Lemma exhausted_list_fails D k t s i l :
+  alookup t (c_ix s) = Some (Nxt i) -> alookup t (c_f s) = Some (VL l) -> (length l <= i)%nat ->
+  dlookup D (c_ty s) t = None ->
+  ser_prim D k t s = Err EExhausted.
+Proof.
+  intros E F Hl Dl. unfold ser_prim, ser_get. rewrite E, F, Dl.
+  destruct (nth_error l i) eqn:N; [|reflexivity].
+  assert (i < length l)%nat by (apply nth_error_Some; congruence). lia.
+Qed.
+
+Lemma missing_key_default D k t s d :
+  alookup t (c_ix s) = None -> alookup t (c_f s) = None -> dlookup D (c_ty s) t = Some d ->
+  ser_prim D k t s =
+    rbind (write_val k d (sio s)) (fun w => Ok (d, set_io (set_ix s (aupd t Used (c_ix s))) w)).
+Proof. intros E F Dl. unfold ser_prim, ser_get. rewrite E, F, Dl. reflexivity. Qed.
+
+Lemma exhausted_list_default D k t s i l d :
+  alookup t (c_ix s) = Some (Nxt i) -> alookup t (c_f s) = Some (VL l) -> (length l <= i)%nat ->
+  dlookup D (c_ty s) t = Some d ->
+  ser_prim D k t s = rbind (write_val k d (sio s)) (fun w => Ok (d, set_io s w)).
+Proof.
+  intros E F Hl Dl. unfold ser_prim, ser_get. rewrite E, F, Dl.
+  destruct (nth_error l i) eqn:N; [|reflexivity].
+  assert (i < length l)%nat by (apply nth_error_Some; congruence). lia.
+Qed.
+
+(* the value primitive of an operation *)
+Definition op_prim (o : op) : option (kind * Z) :=
+  match o with
+  | OBool t => Some (KBool, t) | ONBits t n => Some (KNBits n, t) | OUintLit t n => Some (KUintLit n, t)
+  | OBitArr t n => Some (KBitArr n, t) | OBytes t n => Some (KBytes n, t)
+  | OUint t => Some (KUint, t) | OSint t => Some (KSint, t)
+  | _ => None
+  end.
+
+Lemma step_prim_err prim o k t s e : op_prim o = Some (k, t) -> prim k t s = Err e -> step prim o s = Err e.
+Proof. destruct o; simpl; intros H; inv H; auto. Qed.
+
+(* a program whose next operation needs a value that is absent (and has no default) fails *)
+Theorem missing_value_fails D A o (kont : result o -> prog A) k t s :
+  op_prim o = Some (k, t) -> dlookup D (c_ty s) t = None ->
+  (alookup t (c_ix s) = None -> alookup t (c_f s) = None ->
+     run (ser_step D) (Op o kont) s = Err EKey) /\
+  (forall i l, alookup t (c_ix s) = Some (Nxt i) -> alookup t (c_f s) = Some (VL l) -> (length l <= i)%nat ->
+     run (ser_step D) (Op o kont) s = Err EExhausted).
+Proof.
+  intros Hp Dl. split.
+  - intros E F. simpl. unfold ser_step.
+    rewrite (step_prim_err _ _ _ _ _ _ Hp (missing_key_fails D k t s E F Dl)). reflexivity.
+  - intros i l E F Hl. simpl. unfold ser_step.
+    rewrite (step_prim_err _ _ _ _ _ _ Hp (exhausted_list_fails D k t s i l E F Hl Dl)). reflexivity.
+Qed.
+
+(* ---- unused values ---- *)
+Lemma verify_keys_class ixs f ks : lists_ok f ixs ->
+  verify_keys ixs f ks = Ok tt \/ verify_keys ixs f ks = Err EUnused.
+Proof.
+  intros L. induction ks as [|k ks IH]; simpl; auto.
+  destruct (alookup k f) eqn:F; auto.
+  unfold target_complete. destruct (alookup k ixs) as [[|i]|] eqn:E; simpl; auto.
+  destruct (L _ _ E) as (l & F' & _). rewrite F in F'. inv F'. simpl.
+  destruct (Nat.eqb i (length l)); auto.
+Qed.
+
+Definition unused_in (s : st) : Prop :=
+  exists t v, alookup t (c_f s) = Some v /\
+    (alookup t (c_ix s) = None \/
+     exists i l, alookup t (c_ix s) = Some (Nxt i) /\ v = VL l /\ i <> length l).
+
+Lemma unused_verify_ctx s : wf s -> unused_in s -> verify_ctx s = Err EUnused.
+Proof.
+  intros W (t & v & F & U). unfold verify_ctx, verify_fields.
+  destruct (verify_keys_class (c_ix s) (c_f s) (map fst (c_f s)) (wf_lists _ W)) as [H|H]; auto.
+  exfalso. pose proof (verify_fields_ok _ _ H t v F) as C. unfold target_complete in C.
+  destruct U as [E | (i & l & E & -> & N)]; rewrite E in C; [discriminate|].
+  inv C. apply Nat.eqb_eq in H1. contradiction.
+Qed.
+
+(* a value that no operation consumed (or a list not consumed to its end), in the dictionary being
+   closed, makes the serialiser fail with UnusedTargetError: at subcontext_leave and at
+   verify_complete *)
+Lemma unused_fails_leave s : wf s -> unused_in s -> subcontext_leave s = Err EUnused.
+Proof. intros W U. unfold subcontext_leave. rewrite (unused_verify_ctx s W U). reflexivity. Qed.
+Lemma unused_fails_complete s : wf s -> unused_in s -> verify_complete s = Err EUnused.
+Proof. intros W U. unfold verify_complete. rewrite (unused_verify_ctx s W U). reflexivity. Qed.
+
+(* every state a run reaches is well formed *)
+Inductive prog_ok {A} : prog A -> Prop :=
+| prog_ok_ret a : prog_ok (Ret a)
+| prog_ok_op o k : op_ok o -> (forall r, prog_ok (k r)) -> prog_ok (Op o k).
+
+Lemma run_wf prim A (p : prog A) :
+  (forall k t s v s', wf s -> prim k t s = Ok (v, s') -> wf s') ->
+  prog_ok p -> forall s a s', wf s -> run (step prim) p s = Ok (a, s') -> wf s'.
+Proof.
+  intros P. induction 1 as [a0 | o k Hok Hk IH]; intros s a s' W H; simpl in H.
+  - inv H. auto.
+  - apply rbind_ok in H. destruct H as ([r s1] & Hs & Hr).
+    eapply IH; [|exact Hr]. eapply step_wf; eauto.
+Qed.
+
+Theorem unused_value_fails D A (p : prog A) ty f a s :
+  prog_ok p -> nohole (VC ty f) -> run_ser D p ty f = Ok (a, s) -> unused_in s ->
+  verify_complete s = Err EUnused.
+Proof.
+  intros Hp Hn Hr U. apply unused_fails_complete; auto.
+  eapply (run_wf (ser_prim D)); [|exact Hp|apply init_wf; exact Hn|exact Hr].
+  intros; eapply ser_prim_wf; eauto.
+Qed.
+
+(* ---- context type changes ---- *)
+Definition root_with (stack : list frame) (v : val) : val :=
+  fold_left (fun v fr => VC (fr_ty fr) (plug v (fr_f fr))) stack v.
+
+Lemma root_root_with s : root s = root_with (stk s) (VC (c_ty s) (c_f s)).
+Proof. reflexivity. Qed.
+
+(* after set_context_type: no failure; the enclosing dictionaries are unchanged and still reference
+   the current dictionary in the slot their index bookkeeping designates (so the freshly created,
+   retyped dictionary has been patched in and no reference to the old object remains); hence the
+   root description is the old root with the current dictionary retyped in place *)
+Theorem set_type_consistent prim ty s u s' : wf s ->
+  step prim (OSetType ty) s = Ok (u, s') ->
+  c_ty s' = ty /\ c_f s' = c_f s /\ stk s' = stk s /\ wf s' /\
+  root s' = root_with (stk s) (VC ty (c_f s)).
+Proof.
+  intros W H. simpl in H. apply unitst_ok in H. rewrite set_context_type_wf in H by auto. inv H.
+  simpl. split; auto. split; auto. split; auto. split; auto.
+  destruct W as [A B C]. constructor; auto.
+Qed.
+
+
+(* ---- corollaries / packaging for Props/C21.v ---- *)
 Lemma set_value_reused : forall t v s,
   alookup t (c_ix s) = Some Used -> set_value t v s = Err EReused.
 Proof. intros t v s H. unfold set_value. rewrite H. reflexivity. Qed.
+
+(* the deserialiser is given the flushed byte stream *)
+Corollary roundtrip_flushed D A (p : prog A) ty f a ss' :
+  sym p -> nohole (VC ty f) ->
+  run_ser D p ty f = Ok (a, ss') -> verify_complete ss' = Ok tt ->
+  exists sd',
+    run_des p (flush_bits (bits (sio ss'))) = Ok (a, sd') /\
+    pos (sio sd') = pos (sio ss') /\
+    verify_complete sd' = Ok tt /\
+    vle D (root ss') (root sd').
+Proof.
+  intros Hs Hn Hr Hv. unfold flush_bits.
+  destruct (roundtrip D A p ty f a ss' Hs Hn Hr Hv (repeat false (Z.to_nat ((- zlen (bits (sio ss'))) mod 8))))
+    as (sd' & H1 & _ & H3 & H4 & H5).
+  exists sd'. auto.
+Qed.
+
+(* a concrete program: typed subcontext holding a list, a default inside the list, a bounded block
+   with trailing padding, byte alignment, a computed value, data-dependent control flow *)
+Definition ex_prog : prog unit :=
+  Op (OSetType 1) (fun _ =>
+  Op (ONBits 0 3) (fun n =>
+  Op (OSubEnter 1) (fun _ =>
+  Op (OSetType 2) (fun _ =>
+  Op (ODeclList 2) (fun _ =>
+  Op (OUint 2) (fun _ =>
+  Op (OUint 2) (fun _ =>
+  Op (OComputed 3 (VI (match n with VI z => z + 1 | _ => 0 end))) (fun _ =>
+  Op OSubLeave (fun _ =>
+  Op (OBBegin 5) (fun _ =>
+  Op (OSint 4) (fun _ =>
+  Op (OBEnd 5) (fun _ =>
+  Op (OByteAlign 6) (fun _ =>
+  (match n with
+   | VI 2 => Op (OBitArr 7 4) (fun _ => Ret tt)
+   | _ => Ret tt
+   end)))))))))))))).
+
+Definition ex_fields : fields :=
+  [(0, VI 2); (1, VC 0 [(2, VL [VI 9])]); (4, VI (-1)); (5, VBits []); (6, VBits [true; false; true]); (7, VBits [true])].
+Definition ex_defaults : defaults := [(2, [(2, VI 4)])].
+
+Lemma ex_prog_sym : sym ex_prog.
+Proof.
+  unfold ex_prog.
+  repeat (apply sym_op; [exact I | simpl; auto | intros ? | simpl; intros; subst; auto]).
+  destruct r0 as [z| | | | | |]; try apply sym_ret.
+  destruct z as [|[[|[]|]|[|[]|]|]|]; try apply sym_ret.
+  apply sym_op; [exact I | simpl; auto | intros; apply sym_ret | intros; reflexivity].
+Qed.
